@@ -83,7 +83,7 @@ def long_plan_corpus():
             p.add_quality_metric(Oversubscription({em.Not(L): 5, em.Equals(lvl(O2), 0): 2, em.GE(K, 21): Fraction(1, 2)}, environment=env))
         t = ("tick", [])
         scripts = []
-        for k in (20, 21, 22):      # the first resets are the k-th step, the second ones the (k+21)-th
+        for k in (21, 22):          # the first resets are the k-th step, the second ones the (k+21)-th
             # Boolean deleted; afterwards a step that needs it false
             scripts.append([("switch_on", [])] + [t] * (k - 2) + [("switch_off", [])] + [t] * 2 + [("switch_on", [])] + [t] * 17
                            + [("switch_off", [])] + [("in_the_dark", [])] + [t])
@@ -100,6 +100,19 @@ def long_plan_corpus():
     return out
 
 
+# Coq function that judges a LONG plan.  Corr_C03.code runs the documented semantics with Sem.spec_step, whose successor
+# state is a closure that reads its predecessor twice per lookup: its cost doubles with every step (a 20-step plan does
+# not finish).  The long family is therefore judged with the step function that C01_sim_run_refines_spec proves equal to
+# spec_step on typed plans, under STRICT evaluation (sc = false: the documented semantics) for bit 0 and under the
+# code's short-circuit evaluation for bit 1 -- both are seq_validate of Planning/SeqValidate.v, nothing new is modelled.
+CODE_LONG = """
+Definition code_long (P : problem) (M : metric) (c : case) : N :=
+  let s0 := st_of (c_init c) in
+  ((if vres_eqb (seq_validate false P M s0 (c_plan c)) (c_valid c) (c_metric c) then 0 else 1) +
+   (if vres_eqb (seq_validate true P M s0 (c_plan c)) (c_valid c) (c_metric c) then 0 else 2))%N.
+"""
+
+
 def long_plans(gen, insts, sim, rng):
     """Plans (tuples of indices into insts) of the LONG family for one problem: the prefixes of lengths LONG_LENS (and the
     whole) of every scripted plan of a corpus problem; for every other problem the same prefixes of one random walk of
@@ -109,7 +122,7 @@ def long_plans(gen, insts, sim, rng):
     walks = [tuple(index[(name, tuple(str(x) for x in args))] for name, args in sc) for sc in scripts]
     lens = LONG_LENS
     if not scripts and insts and sim is not None:
-        lens = (20, 21, 22, 42, 44)
+        lens = (21, 22, 43)
         walk = []
         try:
             st = sim.get_initial_state()
@@ -216,6 +229,7 @@ def run(ctx):
     maxlen = 2 if ctx.quick else 3
     cap = 45 if ctx.quick else 160
     pre, cases, owners = [], [], []
+    lcases, lowners = [], []
     stats = {"problems": 0, "skipped": 0, "plans": 0, "valid": 0, "invalid": 0, "empty_plans": 0, "raised": 0,
              "metrics": {}, "valid_with_metric": 0}
     nontrivial = set()
@@ -306,13 +320,19 @@ def run(ctx):
             stats["valid_with_metric"] += rec["metric"] is not None
             n = ser.names
             gplan = glist([gpair(gn(n.act(insts[j][0])), glist([ser_value(sx.arg_value(x), n) for x in insts[j][1]])) for j in plan])
-            cases.append("(P%d, M%d, {| c_init := %s; c_plan := %s; c_valid := %s; c_metric := %s |})" % (
+            islong = len(plan) >= min(LONG_LENS)
+            (lcases if islong else cases).append("(P%d, M%d, {| c_init := %s; c_plan := %s; c_valid := %s; c_metric := %s |})" % (
                 pi, pi, ser.ser_state(s0), gplan, gbool(bool(rec["valid"])), gopt(None if rec["metric"] is None else gqc(rec["metric"]))))
-            owners.append((gen, ser, rec, s0, metric, pi, [insts[j] for j in plan]))
+            (lowners if islong else owners).append((gen, ser, rec, s0, metric, pi, [insts[j] for j in plan]))
+            stats["long_valid"] = stats.get("long_valid", 0) + (islong and bool(rec["valid"]))
             if rec["valid"] or len(plan) >= 2:
                 nontrivial.add(json.dumps(rec, default=str, sort_keys=True))
     codes = ctx.coq_codes(cases, "fun t => code (fst (fst t)) (snd (fst t)) (snd t)", imports=IMPORTS, preamble="\n".join(pre) + "\n",
                           shard=250, label="plans")
+    if lcases:
+        codes = list(codes) + list(ctx.coq_codes(lcases, "fun t => code_long (fst (fst t)) (snd (fst t)) (snd t)", imports=IMPORTS,
+                                                 preamble="\n".join(pre) + "\n" + CODE_LONG, shard=250, label="longplans"))
+        cases, owners = cases + lcases, owners + lowners
     preamble_all = "\n".join(pre) + "\n"
     failing = []
     for k, ((gen, ser, rec, s0, metric, pi, iplan), code) in enumerate(zip(owners, codes)):
@@ -335,7 +355,7 @@ def run(ctx):
     ctx.finish({
         "evaluations": len(cases),
         "distinct_nontrivial": len(nontrivial),
-        "rule": "generated problems with 0/1 quality metric; all plans of length <= tier bound over ground instances (capped by random sampling), the empty plan, 3 random longer plans; non-trivial = VALID or length >= 2; distinct by (problem, plan)",
+        "rule": "generated problems with 0/1 quality metric; all plans of length <= tier bound over ground instances (capped by random sampling), the empty plan, 3 random longer plans, LONG plans (prefixes of lengths 19..23 / 40..44 of scripted set-reset plans and of one random applicable walk per problem); non-trivial = VALID or length >= 2; distinct by (problem, plan)",
         "samples": [o[2] for o in owners[:3]],
         "distribution": stats,
         "traces_validated_against_impl": len(cases),
